@@ -136,3 +136,25 @@ Definition affine3 (o c1 c2 c3 : pt3) (r : pt3) : pt3 :=
   (x3 o + x3 c1 * x3 r + x3 c2 * y3 r + x3 c3 * z3 r,
    y3 o + y3 c1 * x3 r + y3 c2 * y3 r + y3 c3 * z3 r,
    z3 o + z3 c1 * x3 r + z3 c2 * y3 r + z3 c3 * z3 r).
+
+(* ---- conformity certificate of a split of a reference cell into tetrahedra (executable, for finite checks):
+   every triangular face of a child is either shared by exactly two children, or belongs to exactly one child and
+   lies in one of the boundary planes a x + b y + c z = v of the reference cell *)
+Local Close Scope Z_scope.
+Definition tet_faces (T : list nat) : mat nat :=
+  map (fun drop => sort_nat (map (fun i => nth i T 0) (filter (fun i => negb (i =? drop)) (seq 0 4)))) (seq 0 4).
+Definition nats_same (a b : list nat) : bool :=
+  (length a =? length b) && forallb (fun xy => fst xy =? snd xy) (combine a b).
+Definition count_face (f : list nat) (fs : mat nat) : nat := length (filter (nats_same f) fs).
+Definition on_plane (ref : list pt3) (pl : Z * Z * Z * Z) (f : list nat) : bool :=
+  let '(a, b, c, v) := pl in
+  forallb (fun i => let p := nth i ref (0, 0, 0)%Z in Z.eqb (a * x3 p + b * y3 p + c * z3 p)%Z v) f.
+Definition conforming_split (ref : list pt3) (planes : list (Z * Z * Z * Z)) (templates : mat nat) : bool :=
+  let fs := concat (map tet_faces templates) in
+  forallb (fun f => let n := count_face f fs in
+                    if existsb (fun pl => on_plane ref pl f) planes then n =? 1 else n =? 2) fs.
+(* boundary planes of the unit cube and of the reference prism (x, y >= 0, x + y <= 1, 0 <= z <= 1) *)
+Definition cube_planes : list (Z * Z * Z * Z) :=
+  [(1, 0, 0, 0); (1, 0, 0, 1); (0, 1, 0, 0); (0, 1, 0, 1); (0, 0, 1, 0); (0, 0, 1, 1)]%Z.
+Definition prism_planes : list (Z * Z * Z * Z) :=
+  [(0, 0, 1, 0); (0, 0, 1, 1); (0, 1, 0, 0); (1, 0, 0, 0); (1, 1, 0, 1)]%Z.
